@@ -167,14 +167,14 @@ def constructor_cases():
 
 def spelling_cases():
     """an access statement names a generic identifier however the blanks are placed; PROTECTED together with PUBLIC leaves the variable protected"""
-    text = ("module m\n  implicit none\n  private\n  public :: operator(.foo.), assignment (=)\n  integer, protected :: pv2\n  integer :: pv\n  integer :: pw\n  protected :: pv\n  public :: pv, pv2\n"
+    text = ("module m\n  implicit none\n  private\n  public :: operator(.foo.), assignment (=)\n  integer, protected :: pv2\n  integer, protected, public :: pv3\n  integer, public, protected :: pv4\n  integer :: pv\n  integer :: pw\n  protected :: pv\n  public :: pv, pv2\n"
             "  public :: pw\n  interface operator (.foo.)\n    module procedure foo_impl\n  end interface\n  interface assignment(=)\n    module procedure assign_impl\n  end interface\n"
             "contains\n  function foo_impl(a) result(r)\n    integer, intent(in) :: a\n    integer :: r\n    r = a\n  end function foo_impl\n"
             "  subroutine assign_impl(l, r)\n    integer, intent(out) :: l\n    logical, intent(in) :: r\n    l = 1\n  end subroutine assign_impl\nend module m\n")
     m = realrun.parse_source(text).modules[0]
     got = {i.name.lower().replace(" ", ""): i.permission for i in m.interfaces}
     got.update({v.name: v.permission for v in m.variables})
-    want = {"operator(.foo.)": "public", "assignment(=)": "public", "pv": "protected", "pv2": "protected", "pw": "public"}
+    want = {"operator(.foo.)": "public", "assignment(=)": "public", "pv": "protected", "pv2": "protected", "pv3": "protected", "pv4": "protected", "pw": "public"}
     bad = {k: (got.get(k), w) for k, w in want.items() if got.get(k) != w}
     if bad:
         return {"confirmed": True, "input": {"source": text}, "actual": {k: v[0] for k, v in bad.items()}, "expected": {k: v[1] for k, v in bad.items()},
